@@ -27,6 +27,8 @@ def run(ctx: Ctx) -> None:
     _memo.rule_memo_sound(ctx, ['graphiq/utils/relabel_module.py'])
     _memo.rule_falsy_zero(ctx, ['graphiq/utils/relabel_module.py'])
     _memo.rule_arg_names(ctx, ['graphiq/utils/relabel_module.py'])
+    _memo.rule_fixed_width(ctx, ['graphiq/utils/relabel_module.py'])
+    _memo.rule_paste_incomplete(ctx, ['graphiq/utils/relabel_module.py'])
     orbits.rule_orbit_provenance(ctx, ["lc_orbit_finder", "rgs_orbit_finder", "linear_partial_orbit", "depth_first_orbit"])
     orbits.rule_automorph(ctx)
     orbits.rule_iso_finder_bounds(ctx)
